@@ -347,6 +347,10 @@ func c07Op(name string, g, mg int64) GOp {
 		return GOp{Kind: "Copy", Bucket: "b", Name: "y", DstBucket: "b", DstName: "x"}
 	case "CPfrom":
 		return GOp{Kind: "Copy", Bucket: "b", Name: "x", DstBucket: "b", DstName: "z"}
+	case "CPxfrom": // across buckets: the lock keys of source and destination name different buckets
+		return GOp{Kind: "Copy", Bucket: "b", Name: "x", DstBucket: "b2", DstName: "z"}
+	case "CPxto":
+		return GOp{Kind: "Copy", Bucket: "b2", Name: "y", DstBucket: "b", DstName: "x"}
 	case "Cfrom":
 		return GOp{Kind: "Compose", Bucket: "b", Name: "z", Srcs: []GSrc{{Name: "x"}, {Name: "x"}}, Meta: gcs.ObjMeta{ContentType: "text/cz"}}
 	case "R":
@@ -391,6 +395,11 @@ func c07Build(c *fw.Ctx, p c07Param) *schedInst {
 		panic("c07 setup: create bucket")
 	}
 	model.Buckets["b"] = map[string]*gcs.MObj{}
+	if r := d.Do(gcs.ReqCreateBucket("b2")); r.Status != 200 {
+		panic("c07 setup: create bucket b2")
+	}
+	model.Buckets["b2"] = map[string]*gcs.MObj{}
+	apply(GOp{Kind: "Upload", Proto: "media", Bucket: "b2", Name: "y", Data: []byte("y-of-b2"), Meta: gcs.ObjMeta{ContentType: "text/y2"}})
 	apply(GOp{Kind: "Upload", Proto: "multipart", Bucket: "b", Name: "y", Data: []byte("yy"), Meta: gcs.ObjMeta{ContentType: "text/y", Metadata: map[string]string{"of": "y"}}})
 	var g, mg int64 = 0, 0
 	if p.Present {
@@ -450,7 +459,7 @@ func c07Build(c *fw.Ctx, p c07Param) *schedInst {
 		}()
 		// final reads close the history
 		n := len(p.Threads)
-		for _, o := range []GOp{{Kind: "GetMeta", Bucket: "b", Name: "x"}, {Kind: "Get", Bucket: "b", Name: "x"}, {Kind: "GetMeta", Bucket: "b", Name: "y"}, {Kind: "Get", Bucket: "b", Name: "z"}, {Kind: "GetMeta", Bucket: "b", Name: "z"}} {
+		for _, o := range []GOp{{Kind: "GetMeta", Bucket: "b", Name: "x"}, {Kind: "Get", Bucket: "b", Name: "x"}, {Kind: "GetMeta", Bucket: "b", Name: "y"}, {Kind: "Get", Bucket: "b", Name: "z"}, {Kind: "GetMeta", Bucket: "b", Name: "z"}, {Kind: "Get", Bucket: "b2", Name: "z"}, {Kind: "GetMeta", Bucket: "b2", Name: "z"}, {Kind: "GetMeta", Bucket: "b2", Name: "y"}} {
 			do(n, o)
 		}
 		outcome := ""
@@ -511,8 +520,8 @@ func replayC07(c *fw.Ctx, raw json.RawMessage) (string, string) {
 
 func runC07(c *fw.Ctx) {
 	var scen []c07Param
-	absentOps := []string{"U0", "U0m", "C0", "CPto", "R", "M", "D"}
-	presentOps := []string{"Ug", "Ugr", "U", "Pm", "Pm2", "P", "Dg", "D", "Cg", "CPto", "CPfrom", "Cfrom", "R", "M"}
+	absentOps := []string{"U0", "U0m", "C0", "CPto", "CPxto", "R", "M", "D"}
+	presentOps := []string{"Ug", "Ugr", "U", "Pm", "Pm2", "P", "Dg", "D", "Cg", "CPto", "CPfrom", "CPxfrom", "CPxto", "Cfrom", "R", "M"}
 	for _, store := range []string{"mem", "file"} {
 		for i := range absentOps {
 			for j := i; j < len(absentOps); j++ {
